@@ -344,10 +344,12 @@ func (f *fileDecorator) link() {
 				if frag.Empty {
 					spaceType = dst.EmptyLine
 				}
-				if foundBefore {
+				// Several consecutive newlines produce several fragments for the same gap: an
+				// empty line that has already been recorded must not be downgraded to a newline.
+				if foundBefore && f.before[nodeBefore] != dst.EmptyLine {
 					f.before[nodeBefore] = spaceType
 				}
-				if foundAfter {
+				if foundAfter && f.after[nodeAfter] != dst.EmptyLine {
 					f.after[nodeAfter] = spaceType
 				}
 				continue
